@@ -4,7 +4,7 @@
 
 Accepted source shape: inside `class AndroidYowsupEnv`, exactly one class-level assignment
 `<NAME> = <string literal>` per constant (adjacent-literal concatenation is one literal for
-`ast`; `+` between literals is accepted too).  Each value must be canonical base64 (alphabet
+`ast`; `+` between literals and `"sep".join([literals])` are accepted too).  Each value must be canonical base64 (alphabet
 A-Za-z0-9+/, length a multiple of 4, '=' only as the last one or two characters) so that
 Python's lenient `base64.b64decode` and the strict decoder of coq/C20/C20Model.v mean the same.
 Anything else raises TranslateError; the caller then writes a stub with empty constants, the
@@ -29,6 +29,10 @@ def _const_str(node):
         return node.value
     if isinstance(node, ast.BinOp) and isinstance(node.op, ast.Add):
         return _const_str(node.left) + _const_str(node.right)
+    # "<sep>".join([<literal>, ...]) / .join((<literal>, ...))
+    if (isinstance(node, ast.Call) and isinstance(node.func, ast.Attribute) and node.func.attr == "join"
+            and len(node.args) == 1 and not node.keywords and isinstance(node.args[0], (ast.List, ast.Tuple))):
+        return _const_str(node.func.value).join(_const_str(e) for e in node.args[0].elts)
     raise TranslateError("line %s: not a string literal" % getattr(node, "lineno", "?"))
 
 
